@@ -19,6 +19,14 @@ takes one Boolean describing the source as it is *now*:
                                before the segment (`seg_last_line`) to insert_sliced_data_units (`first_last_line`);
                                vbi_dvb_multiplex_sliced passes 0 (model: `Mux.segStart`)
 
+  muxBumpBothPaths = true      (round 6) the test `1 == p_left && last_du_size >= 257` (one more TS payload) follows BOTH size
+                               branches of generate_pes_packet - fill up to min_packet_size and round up to a multiple of
+                               184 - as in /repo since b15a657; also emitted for the unchanged tree, which has no such test
+  muxBumpBothPaths = false     the test sits inside `if (remainder > 0) { ... }` and is not applied on the fill-up path (seeded
+                               change C06-e): the driver follows that shape (`generatePesRRound`), the theorem modules stop
+                               building (`Mux/PesShape.lean generatePesR_both`), and a frame ending in a 257-byte raw unit one
+                               byte short of min_packet_size is emitted with that unit corrupted
+
 Any other shape of these statements is reported as a translator failure, so that the model is read again."""
 import os, re, sys
 
@@ -41,13 +49,23 @@ def main():
     n_temp = len(re.findall(r"insert_(?:sliced|raw)_data_units \(&p, p_end - p, &du_size,", body))
     n_keep = body.count("if (du_size > 0) last_du_size = du_size;")
     init = "last_line = 0; last_du_size = 0; for (;;)" in body
-    bump = "if (unlikely (1 == p_left && last_du_size >= 257)) { p_left += 184; } size += p_left;" in body
-    tail_orig = "p_left = 184 - remainder; } size += p_left; encode_stuffing (p, p_left, last_du_size, fixed_length);" in body
-    tail_fixed = bump and "size += p_left; encode_stuffing (p, p_left, last_du_size, fixed_length);" in body
+    # round 6: the whole size computation is matched as one string, so the position of the 257 test is part of the shape
+    head = ("size = p - mx->packet - 4; if (size < mx->min_packet_size) { p_left = mx->min_packet_size - size; } else { "
+            "unsigned int remainder; p_left = 0; remainder = size % 184; ")
+    test = "if (unlikely (1 == p_left && last_du_size >= 257)) { p_left += 184; }"
+    end = " size += p_left; encode_stuffing (p, p_left, last_du_size, fixed_length);"
+    n_test = body.count("last_du_size >= 257")
+    tail_orig = (head + "if (remainder > 0) p_left = 184 - remainder; }" + end) in body and n_test == 0
+    tail_fixed = (head + "if (remainder > 0) p_left = 184 - remainder; } " + test + end) in body and n_test == 1
+    tail_moved = (head + "if (remainder > 0) { p_left = 184 - remainder; " + test + " } }" + end) in body and n_test == 1
+    bump = tail_fixed or tail_moved
+    both = "true"
     if n_direct == 2 and n_temp == 0 and n_keep == 0 and not init and tail_orig:
         flag = "false"
     elif n_direct == 0 and n_temp == 2 and n_keep == 2 and init and tail_fixed:
         flag = "true"
+    elif n_direct == 0 and n_temp == 2 and n_keep == 2 and init and tail_moved:
+        flag = "true"; both = "false"
     else:
         raise SystemExit("gen_muxflags: the last_du_size bookkeeping of generate_pes_packet has an unknown shape "
                          "(direct=%d temp=%d keep=%d init=%s bump=%s); re-read the code and update "
@@ -85,10 +103,13 @@ def main():
             "def muxKeepsLastDuSize : Bool := %s\n\n"
             "/-- `generate_pes_packet` hands the line number reached before a segment of sliced lines to\n"
             "`insert_sliced_data_units` (fix C06-mux-undef-field-after-raw present); otherwise every call starts at 0 -/\n"
-            "def muxSegLastLine : Bool := %s\n\nend Zvbi.Gen\n" % (flag, seg))
+            "def muxSegLastLine : Bool := %s\n\n"
+            "/-- the test `1 == p_left && last_du_size >= 257` of `generate_pes_packet` follows both size branches (fill up to\n"
+            "`min_packet_size`, round up to a multiple of 184); false = it sits inside the round-up branch only -/\n"
+            "def muxBumpBothPaths : Bool := %s\n\nend Zvbi.Gen\n" % (flag, seg, both))
     if not os.path.exists(OUT) or open(OUT).read() != text:
         open(OUT, "w").write(text)
-    print("gen_muxflags: muxKeepsLastDuSize = %s, muxSegLastLine = %s" % (flag, seg))
+    print("gen_muxflags: muxKeepsLastDuSize = %s, muxSegLastLine = %s, muxBumpBothPaths = %s" % (flag, seg, both))
 
 
 if __name__ == "__main__":
